@@ -352,6 +352,14 @@ def probe_sets(val, depth=0, found=None):
     return found
 
 
+def _small_complex(rng, pool):
+    """A small complex over (part of) the pool, built simplex by simplex (never through a bulk format)."""
+    S = xgi.SimplicialComplex()
+    for _ in range(3):
+        S.add_simplex(ops.rand_members(rng, list(pool), 1, 3))
+    return S
+
+
 def run_case(mon, kind, idx, rng):
     cls = CLASSES[idx % 3]
     net = make_net(rng, cls)
@@ -378,7 +386,7 @@ def run_case(mon, kind, idx, rng):
         if cls == "SimplicialComplex" and name.endswith(("dual", "draw_bipartite")) and net.num_nodes and max(net.degree().values()) > 6:
             # the dual of a complex is built as a complex: a node of degree d becomes a d-simplex with 2^d faces.
             # Not a mutation question - keep the input small enough for the call to finish.
-            net = xgi.SimplicialComplex([ops.rand_members(rng, list(net.nodes)[:5], 1, 3) for _ in range(3)])
+            net = _small_complex(rng, list(net.nodes)[:5])
             if kind.startswith("m:"):
                 thunk, desc = call_method("SimplicialComplex", name.split(".", 1)[1], net, rng, td)
             else:
